@@ -346,6 +346,393 @@ Proof.
     + apply (i_errres s I).
 Qed.
 
+
+(* ---- the host spawns the next attempt (or leaves the for loop) *)
+Lemma spawn_inv s k :
+  Inv s -> (r_host s = HInit /\ k = 0) \/ (exists k0, r_host s = HWait k0 /\ k = S k0) ->
+  Inv (spawn_next c s k).
+Proof.
+  intros I Hh.
+  assert (Hres : r_result s = None).
+  { destruct (r_result s) eqn:E; auto. exfalso.
+    assert (r_host s = HDone) by (apply (i_done s I); rewrite E; discriminate).
+    destruct Hh as [[K _] | [k0 [K _]]]; congruence. }
+  assert (Hearly : early (r_host s)) by (destruct Hh as [[K _] | [k0 [K _]]]; rewrite K; exact Logic.I).
+  unfold spawn_next. destruct (k <? length (c_addrs c)) eqn:Ek.
+  - apply Nat.ltb_lt in Ek.
+    assert (Hlt : k < length (r_att s)) by (rewrite (i_len s I); exact Ek).
+    destruct (nth_error (c_addrs c) k) as [a|] eqn:Ha; [| apply nth_error_None in Ha; lia].
+    assert (Hk : nth_error (r_att s) k = Some TNone).
+    { destruct (nth_error (r_att s) k) as [t|] eqn:E; [| apply nth_error_None in E; lia].
+      f_equal. pose proof (i_none s I) as Hn.
+      destruct Hh as [[K ->] | [k0 [K ->]]]; rewrite K in Hn.
+      - eapply Hn; eauto.
+      - destruct Hn as [_ [Hn _]]. eapply Hn; eauto. }
+    assert (Hnc : forall x, connecting (r_att s) x -> x <> a_id a).
+    { intros x Hc E. subst x. eapply (not_conn_self s k TNone a); eauto. }
+    assert (Hother : forall j, j <> k -> nth_error (upd (r_att s) k (TNew false)) j = nth_error (r_att s) j)
+      by (intros j Hj; apply upd_other; auto).
+    constructor; simpl.
+    + rewrite upd_length. apply (i_len s I).
+    + apply (i_nodup s I).
+    + intro x. rewrite (conn_upd_non _ k (TNew false) a x Hlt eq_refl Ha).
+      unfold kept; simpl. fold (kept s). rewrite (i_open s I x). specialize (Hnc x). tauto.
+    + intros id Hw. destruct (i_winner s I _ Hw) as (j & b & Hj & Hb & E). exists j, b. split; [|auto].
+      rewrite Hother; auto. intro; subst j. rewrite Hk in Hj. discriminate.
+    + split; [exact Ek | split].
+      * intros j t Hj Hnth. rewrite Hother in Hnth by lia. pose proof (i_none s I) as Hn.
+        destruct Hh as [[K ->] | [k0 [K ->]]]; rewrite K in Hn.
+        -- eapply Hn; eauto.
+        -- destruct Hn as [_ [Hn _]]. eapply (Hn j); eauto. lia.
+      * intros j t Hj Hnth. destruct (Nat.eq_dec j k) as [->|Nj].
+        -- rewrite upd_same in Hnth by exact Hlt. inversion Hnth. discriminate.
+        -- rewrite Hother in Hnth by exact Nj. pose proof (i_none s I) as Hn.
+           destruct Hh as [[K ->] | [k0 [K ->]]]; rewrite K in Hn; [lia|].
+           destruct Hn as [_ [_ Hn]]. eapply (Hn j); eauto. lia.
+    + split; [discriminate | intro K; congruence].
+    + discriminate.
+    + apply (i_res s I).
+    + apply (i_scope s I).
+    + intros _ j t Hnth. destruct (Nat.eq_dec j k) as [->|Nj].
+      * rewrite upd_same in Hnth by exact Hlt. inversion Hnth. split; discriminate.
+      * rewrite Hother in Hnth by exact Nj. eapply (i_cflag s I); eauto.
+    + intros _ Hw Hc. pose proof (i_err s I Hearly Hw Hc). pose proof (count_upd_le (r_att s) k (TNew false)). simpl in *. lia.
+    + apply (i_errres s I).
+  - apply Nat.ltb_ge in Ek. constructor; simpl.
+    + apply (i_len s I).
+    + apply (i_nodup s I).
+    + apply (i_open s I).
+    + apply (i_winner s I).
+    + intros j t Hnth. pose proof (i_none s I) as Hn.
+      assert (Hj : j < length (c_addrs c)) by (rewrite <- (i_len s I); apply nth_error_Some; rewrite Hnth; discriminate).
+      destruct Hh as [[K ->] | [k0 [K ->]]]; rewrite K in Hn; [lia|].
+      destruct Hn as [_ [_ Hn]]. eapply (Hn j); eauto. lia.
+    + split; [discriminate | intro K; congruence].
+    + discriminate.
+    + apply (i_res s I).
+    + apply (i_scope s I).
+    + intros _. apply (i_cflag s I Hearly).
+    + intros _. apply (i_err s I Hearly).
+    + apply (i_errres s I).
+Qed.
+
+(* ---- LChildStart when the connect suspends *)
+Lemma start_wait_inv s i a created :
+  Inv s -> nth_error (r_att s) i = Some (TNew false) -> nth_error (c_addrs c) i = Some a ->
+  Inv {| r_att := upd (r_att s) i (TConn false); r_open := a_id a :: r_open s; r_created := created;
+         r_winner := r_winner s; r_nerr := r_nerr s; r_scope := r_scope s; r_caller := r_caller s;
+         r_crashed := r_crashed s; r_host := r_host s; r_result := r_result s |}.
+Proof.
+  intros I Ht Ha.
+  assert (Hlt : i < length (r_att s)) by (eapply active_lt; eauto).
+  assert (Hnin : ~ In (a_id a) (r_open s)) by (eapply (not_open_self s i (TNew false) a); eauto).
+  assert (Hnc : forall x, connecting (r_att s) x -> x <> a_id a).
+  { intros x Hc E. subst x. eapply (not_conn_self s i (TNew false) a); eauto. }
+  assert (Hwin : r_winner s <> Some (a_id a)) by (eapply (winner_not_active s i (TNew false) a); eauto).
+  assert (Hother : forall j, j <> i -> nth_error (upd (r_att s) i (TConn false)) j = nth_error (r_att s) j)
+    by (intros j Hj; apply upd_other; auto).
+  constructor; simpl.
+  - rewrite upd_length. apply (i_len s I).
+  - constructor; [exact Hnin | apply (i_nodup s I)].
+  - intro x. rewrite (conn_upd_conn _ i false a x Hlt Ha). unfold kept; simpl. fold (kept s).
+    rewrite (i_open s I x). specialize (Hnc x).
+    split.
+    + intros [E | [K | K]]; [left; right; symmetry; exact E | left; left; split; auto | right; exact K].
+    + intros [[[K _] | E] | K]; [right; left; exact K | left; symmetry; exact E | right; right; exact K].
+  - intros id Hw. destruct (i_winner s I _ Hw) as (j & b & Hj & Hb & E). exists j, b. split; [|auto].
+    rewrite Hother; auto. intro; subst j. rewrite Ht in Hj. discriminate.
+  - pose proof (i_none s I) as Hn. destruct (r_host s); auto.
+    + exfalso. specialize (Hn _ _ Ht). discriminate.
+    + destruct Hn as [Hk [Hn1 Hn2]]. split; [exact Hk | split].
+      * intros j t0 Hj Hnth. destruct (Nat.eq_dec j i) as [->|Nj].
+        -- exfalso. specialize (Hn1 _ _ Hj Ht). discriminate.
+        -- rewrite Hother in Hnth by exact Nj. eapply Hn1; eauto.
+      * intros j t0 Hj Hnth. destruct (Nat.eq_dec j i) as [->|Nj].
+        -- rewrite upd_same in Hnth by exact Hlt. inversion Hnth. discriminate.
+        -- rewrite Hother in Hnth by exact Nj. eapply Hn2; eauto.
+    + intros j t0 Hnth. destruct (Nat.eq_dec j i) as [->|Nj].
+      * rewrite upd_same in Hnth by exact Hlt. inversion Hnth. discriminate.
+      * rewrite Hother in Hnth by exact Nj. eapply Hn; eauto.
+  - apply (i_done s I).
+  - intro Hh. exfalso. pose proof (i_alldone s I Hh) as Hd. unfold all_children_done in Hd.
+    rewrite forallb_forall in Hd. apply nth_error_In in Ht. apply Hd in Ht. discriminate.
+  - apply (i_res s I).
+  - apply (i_scope s I).
+  - intros He j t0 Hnth. destruct (Nat.eq_dec j i) as [->|Nj].
+    + rewrite upd_same in Hnth by exact Hlt. inversion Hnth. split; discriminate.
+    + rewrite Hother in Hnth by exact Nj. eapply (i_cflag s I); eauto.
+  - intros He Hw Hc. pose proof (i_err s I He Hw Hc). pose proof (count_upd_le (r_att s) i (TConn false)). simpl in *. lia.
+  - apply (i_errres s I).
+Qed.
+
+(* ---- the task group cancels every child *)
+Lemma abort_inv s : Inv s -> (exists k, r_host s = HWait k) \/ r_host s = HJoin ->
+  Inv (set_host (set_att s (map cancel_child (r_att s))) HAbort).
+Proof.
+  intros I Hh.
+  assert (Hres : r_result s = None).
+  { destruct (r_result s) eqn:E; auto. exfalso.
+    assert (r_host s = HDone) by (apply (i_done s I); rewrite E; discriminate).
+    destruct Hh as [[k K] | K]; congruence. }
+  constructor; simpl.
+  - rewrite map_length. apply (i_len s I).
+  - apply (i_nodup s I).
+  - intro x. rewrite conn_cancel. apply (i_open s I).
+  - intros id Hw. destruct (i_winner s I _ Hw) as (j & b & Hj & Hb & E). exists j, b. split; [|auto].
+    rewrite nth_error_map, Hj. reflexivity.
+  - exact Logic.I.
+  - split; [discriminate | intro K; congruence].
+  - discriminate.
+  - apply (i_res s I).
+  - apply (i_scope s I).
+  - intros [].
+  - intros [].
+  - apply (i_errres s I).
+Qed.
+
+(* ---- the host leaves the task group and the scope *)
+Lemma done_inv s res open' :
+  Inv s -> all_children_done s = true -> r_host s <> HDone ->
+  NoDup open' ->
+  ((exists w, res = ResSock w /\ r_winner s = Some w /\ open' = r_open s) \/
+   ((forall w, res <> ResSock w) /\ open' = close_winner s)) ->
+  (forall n, res = ResErrs n -> 1 <= n) ->
+  Inv (finish s res open').
+Proof.
+  intros I Hall Hh Hnd Hcase Herr.
+  assert (Hres : r_result s = None).
+  { destruct (r_result s) eqn:E; auto. exfalso. apply Hh. apply (i_done s I). rewrite E. discriminate. }
+  assert (Hkept : kept s) by (unfold kept; rewrite Hres; exact Logic.I).
+  constructor; simpl.
+  - apply (i_len s I).
+  - exact Hnd.
+  - intro x. unfold kept; simpl.
+    assert (Hnc : ~ connecting (r_att s) x) by (apply not_conn_when_done; exact Hall).
+    destruct Hcase as [(w & -> & Hw & ->) | [Hns ->]].
+    + rewrite (i_open s I x). tauto.
+    + assert (Hk : ~ match res with ResSock _ => True | _ => False end) by (destruct res; auto; exfalso; eapply Hns; eauto).
+      split; [| intros [K | [_ K]]; [exfalso; auto | exfalso; destruct res; auto; eapply Hns; eauto]].
+      unfold close_winner. destruct (r_winner s) as [w|] eqn:Hw.
+      * rewrite in_remove_id, (i_open s I x). intros [[K | [K _]] N]; [exfalso; auto|]. exfalso. apply N. congruence.
+      * rewrite (i_open s I x). intros [K | [K _]]; [exfalso; auto | congruence].
+  - apply (i_winner s I).
+  - exact Logic.I.
+  - split; [discriminate | reflexivity].
+  - intros _. exact Hall.
+  - intros id K. inversion K; subst. destruct Hcase as [(w & E & Hw & _) | [Hns _]].
+    + inversion E; subst. exact Hw.
+    + exfalso. eapply Hns; eauto.
+  - apply (i_scope s I).
+  - intros [].
+  - intros [].
+  - intros n K. inversion K; subst. apply Herr. reflexivity.
+Qed.
+
+Lemma nodup_close_winner s : Inv s -> NoDup (close_winner s).
+Proof. intro I. unfold close_winner. destruct (r_winner s); [apply nodup_remove_id|]; apply (i_nodup s I). Qed.
+
+(* ---- preservation *)
+Lemma step_inv s l s' : Inv s -> step c s l = Some s' -> Inv s'.
+Proof.
+  intros I H. destruct l as [ | timer | | swallow | i | i | i | i | i | i | ]; unfold step in H.
+  - (* LHostStart *)
+    destruct (r_host s) eqn:Eh; try discriminate. destruct (r_caller s); [discriminate|].
+    inversion H; subst. apply spawn_inv; auto.
+  - (* LHostNext *)
+    destruct (r_host s) eqn:Eh; try discriminate.
+    match type of H with (if ?b then _ else _) = _ => destruct b end; [|discriminate].
+    inversion H; subst. apply spawn_inv; auto. right. exists k. auto.
+  - (* LHostCancel *)
+    destruct (pending_cancel s); [|discriminate]. destruct (r_host s) eqn:Eh; try discriminate.
+    + inversion H; subst.
+      assert (Hall : all_children_done s = true).
+      { unfold all_children_done. apply forallb_forall. intros t Ht. apply In_nth_error in Ht. destruct Ht as [j Hj].
+        pose proof (i_none s I) as Hn. rewrite Eh in Hn. rewrite (Hn _ _ Hj). reflexivity. }
+      assert (Hw : r_winner s = None).
+      { destruct (r_winner s) eqn:Hw; auto. exfalso. destruct (i_winner s I _ Hw) as (j & b & Hj & _).
+        pose proof (i_none s I) as Hn. rewrite Eh in Hn. specialize (Hn _ _ Hj). discriminate. }
+      apply done_inv; auto.
+      * rewrite Eh. discriminate.
+      * apply (i_nodup s I).
+      * right. split; [discriminate|]. unfold close_winner. rewrite Hw. reflexivity.
+      * discriminate.
+    + inversion H; subst. apply abort_inv; auto. left. eauto.
+    + inversion H; subst. apply abort_inv; auto.
+  - (* LHostFinish *)
+    destruct (all_children_done s) eqn:Hall; [|discriminate].
+    destruct (r_host s) eqn:Eh; try discriminate.
+    + (* HJoin *)
+      assert (Hnd : r_host s <> HDone) by (rewrite Eh; discriminate).
+      destruct (r_crashed s) eqn:Ec.
+      * inversion H; subst. apply done_inv; auto; [apply nodup_close_winner; auto | right; split; [discriminate | reflexivity] | discriminate].
+      * destruct (r_winner s) as [w|] eqn:Hw; inversion H; subst.
+        -- apply done_inv; auto; [apply (i_nodup s I) | left; exists w; auto | discriminate].
+        -- apply done_inv; auto; [apply (i_nodup s I) | right; split; [discriminate | unfold close_winner; rewrite Hw; reflexivity] |].
+           intros n K. inversion K; subst.
+           assert (He : early (r_host s)) by (rewrite Eh; exact Logic.I).
+           pose proof (i_err s I He Hw Ec) as Hle.
+           pose proof (i_none s I) as Hn. rewrite Eh in Hn.
+           rewrite count_all in Hle.
+           ++ rewrite (i_len s I) in Hle. destruct (c_addrs c); [exfalso; apply nonempty; reflexivity | simpl in Hle; lia].
+           ++ intros t Ht. apply In_nth_error in Ht. destruct Ht as [j Hj]. eapply Hn; eauto.
+           ++ exact Hall.
+    + (* HAbort *)
+      assert (Hnd : r_host s <> HDone) by (rewrite Eh; discriminate).
+      destruct (r_crashed s) eqn:Ec.
+      * inversion H; subst. apply done_inv; auto; [apply nodup_close_winner; auto | right; split; [discriminate | reflexivity] | discriminate].
+      * destruct swallow.
+        -- destruct (r_scope s) eqn:Es; [|discriminate].
+           destruct (r_winner s) as [w|] eqn:Hw.
+           ++ inversion H; subst. apply done_inv; auto; [apply (i_nodup s I) | left; exists w; auto | discriminate].
+           ++ exfalso. apply (i_scope s I Es). exact Hw.
+        -- destruct (r_caller s); [|discriminate]. inversion H; subst.
+           apply done_inv; auto; [apply nodup_close_winner; auto | right; split; [discriminate | reflexivity] | discriminate].
+  - (* LChildStart *)
+    destruct (nth_error (r_att s) i) as [[|[]| |]|] eqn:Et; try discriminate.
+    destruct (nth_error (c_addrs c) i) as [a|] eqn:Ha; [|discriminate].
+    assert (Hnin : ~ In (a_id a) (r_open s)) by (eapply (not_open_self s i (TNew false) a); eauto).
+    destruct (cc_single (c_locals c) a (r_open s)) as [(n & E & Hn) | [E | [E | E]]]; rewrite E in H; injection H as <-.
+    + eapply (finish_inv s i (TNew false) a (OutErrs n) (r_open s)); eauto.
+      * apply (i_nodup s I).
+      * intros; tauto.
+      * split; [intro K; exfalso; auto | discriminate].
+      * discriminate.
+      * intros n0 K. inversion K; subst. exact Hn.
+      * discriminate.
+    + apply start_wait_inv; auto.
+    + eapply (finish_inv s i (TNew false) a (OutSock (a_id a)) (a_id a :: r_open s)); eauto.
+      * constructor; [exact Hnin | apply (i_nodup s I)].
+      * intros x Hx. simpl. split; [intros [K | K]; [congruence | exact K] | intro K; right; exact K].
+      * split; [reflexivity | intros _; left; reflexivity].
+      * intros id K. inversion K. reflexivity.
+      * discriminate.
+      * discriminate.
+    + eapply (finish_inv s i (TNew false) a OutCrash (r_open s)); eauto.
+      * apply (i_nodup s I).
+      * intros; tauto.
+      * split; [intro K; exfalso; auto | discriminate].
+      * discriminate.
+      * discriminate.
+      * discriminate.
+  - (* LChildSkip *)
+    destruct (nth_error (r_att s) i) as [[|[]| |]|] eqn:Et; try discriminate.
+    injection H as <-.
+    destruct (nth_error (c_addrs c) i) as [a|] eqn:Ha.
+    2:{ exfalso. apply nth_error_None in Ha. rewrite <- (i_len s I) in Ha.
+        assert (i < length (r_att s)) by (apply nth_error_Some; rewrite Et; discriminate). lia. }
+    assert (Hnin : ~ In (a_id a) (r_open s)) by (eapply (not_open_self s i (TNew true) a); eauto).
+    change (set_att s (upd (r_att s) i TFin)) with (child_finish s i OutCancel (r_open s) (r_created s)).
+    eapply (finish_inv s i (TNew true) a OutCancel (r_open s)); eauto.
+    + apply (i_nodup s I).
+    + intros; tauto.
+    + split; [intro K; exfalso; auto | discriminate].
+    + discriminate.
+    + discriminate.
+    + intros _ He. destruct (i_cflag s I He _ _ Et) as [K _]. apply K; reflexivity.
+  - (* LConnOk *)
+    destruct (nth_error (r_att s) i) as [[| |[]|]|] eqn:Et; try discriminate.
+    unfold child_resume in H. destruct (nth_error (c_addrs c) i) as [a|] eqn:Ha; [|discriminate].
+    cbn [cc_resume cc_advance] in H. injection H as <-.
+    assert (Hin : In (a_id a) (r_open s)).
+    { apply (i_open s I). left. exists i, a, false. auto. }
+    eapply (finish_inv s i (TConn false) a (OutSock (a_id a)) (r_open s)); eauto.
+    + apply (i_nodup s I).
+    + intros; tauto.
+    + split; [reflexivity | intros _; exact Hin].
+    + intros id K. inversion K. reflexivity.
+    + discriminate.
+    + discriminate.
+  - (* LConnFail *)
+    destruct (nth_error (r_att s) i) as [[| |[]|]|] eqn:Et; try discriminate.
+    unfold child_resume in H. destruct (nth_error (c_addrs c) i) as [a|] eqn:Ha; [|discriminate].
+    cbn [cc_resume cc_advance] in H. injection H as <-.
+    eapply (finish_inv s i (TConn false) a (OutErrs 1) (remove_id (a_id a) (r_open s))); eauto.
+    + apply nodup_remove_id. apply (i_nodup s I).
+    + intros x Hx. rewrite in_remove_id. tauto.
+    + rewrite in_remove_id. split; [intros [_ K]; exfalso; apply K; reflexivity | discriminate].
+    + discriminate.
+    + intros n K. inversion K. lia.
+    + discriminate.
+  - (* LConnCrash *)
+    destruct (nth_error (r_att s) i) as [[| |[]|]|] eqn:Et; try discriminate.
+    unfold child_resume in H. destruct (nth_error (c_addrs c) i) as [a|] eqn:Ha; [|discriminate].
+    cbn [cc_resume cc_advance] in H. injection H as <-.
+    eapply (finish_inv s i (TConn false) a OutCrash (remove_id (a_id a) (r_open s))); eauto.
+    + apply nodup_remove_id. apply (i_nodup s I).
+    + intros x Hx. rewrite in_remove_id. tauto.
+    + rewrite in_remove_id. split; [intros [_ K]; exfalso; apply K; reflexivity | discriminate].
+    + discriminate.
+    + discriminate.
+    + discriminate.
+  - (* LConnCancel *)
+    destruct (nth_error (r_att s) i) as [[| |[]|]|] eqn:Et; try discriminate.
+    unfold child_resume in H. destruct (nth_error (c_addrs c) i) as [a|] eqn:Ha; [|discriminate].
+    cbn [cc_resume cc_advance] in H. injection H as <-.
+    eapply (finish_inv s i (TConn true) a OutCancel (remove_id (a_id a) (r_open s))); eauto.
+    + apply nodup_remove_id. apply (i_nodup s I).
+    + intros x Hx. rewrite in_remove_id. tauto.
+    + rewrite in_remove_id. split; [intros [_ K]; exfalso; apply K; reflexivity | discriminate].
+    + discriminate.
+    + discriminate.
+    + intros _ He. destruct (i_cflag s I He _ _ Et) as [_ K]. apply K; reflexivity.
+  - (* LCancelCaller *)
+    destruct (r_host s) eqn:Eh; try discriminate; inversion H; subst;
+      (destruct I; constructor; simpl; auto; rewrite Eh in *; auto).
+Qed.
+
+Lemma exec_inv : forall tr s s', Inv s -> exec c s tr = Some s' -> Inv s'.
+Proof.
+  induction tr as [|l tr IH]; intros s s' I H; simpl in H.
+  - inversion H; subst; exact I.
+  - destruct (step c s l) as [s1|] eqn:E; [|discriminate]. eapply IH; [eapply step_inv; eauto | exact H].
+Qed.
+
+Lemma open_singleton (l : list nat) x : NoDup l -> (forall y, In y l <-> y = x) -> l = [x].
+Proof.
+  intros Hnd H. destruct l as [|a l].
+  - exfalso. apply (H x). reflexivity.
+  - assert (a = x) by (apply H; left; reflexivity). subst a.
+    destruct l as [|b l]; auto. exfalso.
+    assert (b = x) by (apply H; right; left; reflexivity). subst b.
+    inversion Hnd; subst. apply H2. left; reflexivity.
+Qed.
+
+Lemma open_empty (l : list nat) : (forall y, ~ In y l) -> l = [].
+Proof. destruct l; auto. intro H. exfalso. apply (H n). left; reflexivity. Qed.
+
+Lemma result_exact_inv s : Inv s ->
+  (forall id, r_result s = Some (ResSock id) -> r_open s = [id] /\ r_winner s = Some id) /\
+  (forall o, r_result s = Some o -> (forall id, o <> ResSock id) -> r_open s = []) /\
+  (forall n, r_result s = Some (ResErrs n) -> 1 <= n).
+Proof.
+  intro I.
+  assert (Hdone : r_result s <> None -> forall x, ~ connecting (r_att s) x).
+  { intros Hr x. apply not_conn_when_done. apply (i_alldone s I). apply (i_done s I). exact Hr. }
+  split; [| split].
+  - intros id Hr. pose proof (i_res s I _ Hr) as Hw. split; [|exact Hw].
+    apply open_singleton; [apply (i_nodup s I)|].
+    intro y. rewrite (i_open s I y). unfold kept. rewrite Hr, Hw.
+    split; [intros [K | [K _]]; [exfalso; eapply Hdone; eauto; congruence | inversion K; reflexivity] | intros ->; right; auto].
+  - intros o Hr Hns. apply open_empty. intros y Hy. apply (i_open s I) in Hy. unfold kept in Hy. rewrite Hr in Hy.
+    destruct Hy as [K | [_ K]]; [eapply Hdone; eauto; congruence | destruct o; auto; eapply Hns; eauto].
+  - apply (i_errres s I).
+Qed.
+
+
+Lemma result_is_final : forall tr s l, exec c (init c) tr = Some s -> r_result s <> None -> step c s l = None.
+Proof.
+  intros tr s l H Hr. pose proof (exec_inv tr (init c) s init_inv H) as I.
+  assert (Hh : r_host s = HDone) by (apply (i_done s I); exact Hr).
+  pose proof (i_alldone s I Hh) as Hall. unfold all_children_done in Hall. rewrite forallb_forall in Hall.
+  assert (Hc : forall i t, nth_error (r_att s) i = Some t -> child_done t = true)
+    by (intros i t Hn; apply Hall; eapply nth_error_In; eauto).
+  destruct l; simpl; rewrite ?Hh; auto;
+    try (destruct (all_children_done s); reflexivity);
+    try (destruct (pending_cancel s); reflexivity);
+    (destruct (nth_error (r_att s) i) as [t|] eqn:E; [| reflexivity]; specialize (Hc _ _ E);
+     destruct t as [|[]|[]|]; simpl in Hc; try discriminate; reflexivity).
+Qed.
+
 End Race.
 
 (* ------------------------------------------------------------------ _create_connection_impl over any address list *)
